@@ -1,4 +1,5 @@
 import Yomm2.Proofs.Report
+import Yomm2.Proofs.ReportConcrete
 /-!
 # C17 (continued) — the flags of the report in terms of the specification
 -/
@@ -27,5 +28,23 @@ theorem every_cell_has_a_tuple (g : Graph) (m : MethodC) (k : Nat) (hk : k < (di
     ∃ cs gis, Cells.LocatedAll g m 0 m.vp cs gis ∧ Forall₂ (fun c v => c ∈ g.cov.get v) cs m.vp ∧
       TableProofs.offset (dispatchMethod g m).groups.reverse gis.reverse = k :=
   Report.cell_has_tuple g m k hk
+
+/-- **C17, concrete-only**: `concrete_not_implemented` is flagged iff some tuple of *non-abstract*
+    registered classes acceptable to the method has no applicable definition -/
+theorem C17_concrete_not_implemented (c : Bridge.Ctx) (m : MethodC) (mr : MethodRec) (hm : Bridge.MethodMatches c m mr) :
+    (dispatchMethod c.g m).report.concreteNotImplemented ≠ 0 ↔
+      ∃ cs ks, Forall₂ (fun cl v => cl ∈ c.g.cov.get v) cs m.vp ∧ (∀ cl ∈ cs, c.g.abstract cl = false) ∧
+        Forall₂ (fun i k => c.key i = some k) cs ks ∧ Selects c.proj c.reg mr.defs ks .notImplemented := by
+  rw [(Report.concrete_flag_iff_cell c.g m).1]
+  exact Report.concrete_cell_iff c m mr hm .ni (Or.inl rfl)
+
+/-- **C17, concrete-only**: `concrete_ambiguous` is flagged iff some tuple of non-abstract classes has
+    applicable definitions but no most specific one -/
+theorem C17_concrete_ambiguous (c : Bridge.Ctx) (m : MethodC) (mr : MethodRec) (hm : Bridge.MethodMatches c m mr) :
+    (dispatchMethod c.g m).report.concreteAmbiguous ≠ 0 ↔
+      ∃ cs ks, Forall₂ (fun cl v => cl ∈ c.g.cov.get v) cs m.vp ∧ (∀ cl ∈ cs, c.g.abstract cl = false) ∧
+        Forall₂ (fun i k => c.key i = some k) cs ks ∧ Selects c.proj c.reg mr.defs ks .ambiguous := by
+  rw [(Report.concrete_flag_iff_cell c.g m).2]
+  exact Report.concrete_cell_iff c m mr hm .amb (Or.inr rfl)
 
 end Yomm2.Props.C17
